@@ -483,8 +483,14 @@ func replayValid(r *Run, c Case) {
 		case "C10":
 			checkEncode(w, k, s, s)
 		case "C14":
-			o, err, _ := lib.Decode(k, s, false)
-			if err == nil {
+			for pass := 0; pass < 2; pass++ {
+				o, err, _ := lib.Decode(k, s, false)
+				if err != nil {
+					break
+				}
+				if pass == 1 {
+					o.Observe() // views read after the object itself was queried
+				}
 				if bv, ok, _ := o.BaseView(); ok {
 					cmpView(w, "BaseMetrics()", c, bv, lib.K2B, p.V.BaseString())
 				}
@@ -519,19 +525,26 @@ func replayValid(r *Run, c Case) {
 	case "C10":
 		checkEncode(w, k, s, p.V.Canonical(k.Level()))
 	case "C14":
-		o, err, _ := lib.Decode(k, s, false)
-		if err == nil {
-			var bt, tt []string
-			for _, tok := range strings.Split(s, "/")[1:] {
-				name, _, _ := strings.Cut(tok, ":")
-				if spec.V3Index(name) < spec.E {
-					bt = append(bt, tok)
-				}
-				if spec.V3Index(name) < spec.CR {
-					tt = append(tt, tok)
-				}
+		var bt, tt []string
+		for _, tok := range strings.Split(s, "/")[1:] {
+			name, _, _ := strings.Cut(tok, ":")
+			if spec.V3Index(name) < spec.E {
+				bt = append(bt, tok)
 			}
-			prefix := "CVSS:" + spec.V3Versions[p.V.Ver]
+			if spec.V3Index(name) < spec.CR {
+				tt = append(tt, tok)
+			}
+		}
+		prefix := "CVSS:" + spec.V3Versions[p.V.Ver]
+		for pass := 0; pass < 2; pass++ {
+			o, err, _ := lib.Decode(k, s, false)
+			if err != nil {
+				break
+			}
+			if pass == 1 {
+				o.Observe() // views read after the object itself was queried
+				doOp(o, 8, 1)
+			}
 			if bv, ok, _ := o.BaseView(); ok {
 				cmpView(w, "BaseMetrics()", c, bv, lib.K3B, join3(prefix, bt))
 			}
